@@ -1,6 +1,6 @@
 SPECIFICATION MCSpec
 CONSTANTS
-  MODE = "pads"
+  MODE = "all"
   PADS_AB = {0, 1, 2, 255, 256, 510, 511}
   PADS_CD = {0, 1, 2, 255, 256, 510, 511}
   FULLFR = FALSE
